@@ -276,7 +276,35 @@ def gen_spec(rng) -> dict:
         if rng.random() < 0.12:
             _far_starts(rng, spec)
     _gen_solver(rng, spec)
+    spec["plan_hist"] = gen_plan_history(rng, spec)
     return spec
+
+
+def gen_plan_history(rng, spec) -> list:
+    """a random history of public SteadyPlan calls for the register-machine correspondence (NOT used for solving): all
+    twelve methods, names one by one / as lists / Ellipsis ("..."), now and then a name the register does not have"""
+    endog, params = list(spec["vars"]), list(spec["params"])
+    other = ["nope"] + list(spec["shocks"][:1])
+
+    def pick(pool, alt):
+        r = rng.random()
+        return rng.choice(other) if r < 0.05 else rng.choice(alt) if (r < 0.1 and alt) else rng.choice(pool)
+    hist = []
+    for _ in range(rng.choice([1, 2, 3, 4, 5, 6, 8, 10])):
+        meth = rng.choice(PLAN_METHODS)
+        if meth in ("swap", "unswap"):
+            hist.append([meth, [[pick(endog, params), pick(params, endog)] for _ in range(rng.choice([1, 1, 2]))]])
+            continue
+        pool, alt = (params, endog) if "endogenize" in meth else (endog, params)
+        r = rng.random()
+        if r < 0.12:
+            arg = "..."
+        elif r < 0.6:
+            arg = pick(pool, alt)
+        else:
+            arg = [pick(pool, alt) for _ in range(rng.choice([0, 1, 2, 2, 3]))]
+        hist.append([meth, arg])
+    return hist
 
 
 def _gen_solver(rng, spec):
@@ -1027,6 +1055,94 @@ def run_impl(spec) -> dict:
     return out
 
 
+BOGUS_QID = 9999
+
+
+def run_plan_history(m, spec) -> dict:
+    """play spec['plan_hist'] on a fresh SteadyPlan(m); record the four registers (insertion order) and whether the call
+    raised after every call, and what _resolve_steady_wrt / _resolve_split_into_blocks make of the final plan"""
+    import irispie as ir
+    from irispie.simultaneous import _steady as st
+    qs = m._invariant.quantities
+    qid = {q.human: q.id for q in qs}
+    kinds = model_kinds([q.kind.name for q in qs])
+    plan = ir.SteadyPlan(m)
+
+    def regs():
+        return [[[qid.get(k, BOGUS_QID), bool(v)] for k, v in getattr(plan, f"_{r}_register").items()]
+                for r in ("exogenized", "endogenized", "fixed_level", "fixed_change")]
+
+    def conv(a):
+        return ... if a == "..." else a
+    trace, errors = [], []
+    for meth, arg in spec["plan_hist"]:
+        ok = True
+        try:
+            if meth in ("swap", "unswap"):
+                getattr(plan, meth)(*[tuple(a) for a in arg])
+            else:
+                getattr(plan, meth)(conv(arg))
+        except Exception as e:  # noqa
+            ok = False
+            errors.append(type(e).__name__)
+        trace.append([regs(), ok])
+    with contextlib.redirect_stdout(io.StringIO()):
+        w = st._resolve_steady_wrt(m, plan, is_flat=bool(spec["flat"]))
+        split = bool(st._resolve_split_into_blocks(None, plan))
+
+    def q_of(a):
+        return [qid.get(n, BOGUS_QID) for n in ([a] if isinstance(a, str) else a)]
+    hist = []
+    for meth, arg in spec["plan_hist"]:
+        if meth in ("swap", "unswap"):
+            hist.append([meth, [[qid.get(a, BOGUS_QID), qid.get(b, BOGUS_QID)] for a, b in arg]])
+        else:
+            hist.append([meth, None if arg == "..." else q_of(arg)])
+    return {"kinds": kinds, "flat": bool(spec["flat"]),
+            "endog": [q.id for q in qs if kinds[q.id] == "KEndog"], "params": [q.id for q in qs if kinds[q.id] == "KParam"],
+            "hist": hist, "trace": trace, "errors": errors,
+            "wrt": [list(w.qids), list(w.fixed_level_qids), list(w.fixed_change_qids)], "split": split}
+
+
+PLAN_HEADER = """From Coq Require Import List Bool Arith.
+From Verif Require Import gen.SteadyPlanGen model.Steady model.SteadyPlan.
+Import ListNotations.
+Set Printing Width 1000000.
+Set Printing Depth 1000000.
+"""
+
+
+def _coq_sel(a) -> str:
+    return "SAll" if a is None else f"(SNames {cnl(a)})"
+
+
+def _coq_op(meth, arg) -> str:
+    if meth in ("swap", "unswap"):
+        pairs = coq_list([f"({a}%nat, {b}%nat)" for a, b in arg])
+        return f"({'OSwap' if meth == 'swap' else 'OUnswap'} {pairs})"
+    if meth in ("fix", "unfix"):
+        return f"({'OFix' if meth == 'fix' else 'OUnfix'} {_coq_sel(arg)})"
+    return f"(OCall {trp._ctor(meth)} {_coq_sel(arg)})"
+
+
+def _coq_reg(r) -> str:
+    return coq_list([f"({q}%nat, {'true' if v else 'false'})" for q, v in r])
+
+
+def coq_plan_case(c: dict) -> str:
+    trace = coq_list([f"(mkSP {_coq_reg(r[0])} {_coq_reg(r[1])} {_coq_reg(r[2])} {_coq_reg(r[3])}, {'true' if ok else 'false'})"
+                      for r, ok in c["trace"]])
+    w = c["wrt"]
+    return (f"  (mkPC {coq_list(c['kinds'])} {core.coq_bool(c['flat'])} {cnl(c['endog'])} {cnl(c['params'])}\n"
+            f"     {coq_list([_coq_op(m_, a) for m_, a in c['hist']])}\n     {trace}\n"
+            f"     ({cnl(w[0])}, {cnl(w[1])}, {cnl(w[2])}) {core.coq_bool(c['split'])})")
+
+
+def plan_shard_text(cases) -> str:
+    return (PLAN_HEADER + "Definition cases : list plan_case := [\n" + ";\n".join(coq_plan_case(c) for c in cases)
+            + "\n].\nEval vm_compute in (failing_plan_cases cases 0).\n")
+
+
 # =====================================================================================================
 # Python mirror of coq/model/Steady.v: used ONLY to know at which arguments numpy's log/exp/power are
 # needed (the values are recorded into lookup tables for the PrimFloat model); Coq does the comparison
@@ -1560,10 +1676,17 @@ def check_property(spec: dict, out: dict) -> list:
 def process_spec(spec: dict) -> dict:
     """one model: run the implementation, build the correspondence cases, evaluate the property"""
     out = run_impl(spec)
-    res = {"error": out["error"], "nl": [], "lin": [], "fails": [], "harness_error": None,
+    res = {"error": out["error"], "nl": [], "lin": [], "fails": [], "harness_error": None, "plan_case": None,
            "shape": (spec["family"], "linear" if spec["linear"] else "nonlinear", "flat" if spec["flat"] else "growth",
                      "plan" if spec["plan"] else "noplan", f"nv{spec['nv']}", f"split={spec['split']}"),
            "nblocks": []}
+    if out.get("model") is not None and spec.get("plan_hist"):
+        try:
+            res["plan_case"] = run_plan_history(out["model"], spec)
+        except Exception as e:  # noqa
+            import traceback
+            res["harness_error"] = traceback.format_exc()[-1500:]
+            return res
     if out["error"]:
         return res
     try:
@@ -1589,7 +1712,7 @@ def _worker(spec):
     except Exception as e:  # noqa
         import traceback
         return {"error": None, "nl": [], "lin": [], "fails": [], "harness_error": traceback.format_exc()[-1500:],
-                "shape": ("?",), "nblocks": []}
+                "shape": ("?",), "nblocks": [], "plan_case": None}
 
 
 def run_many(specs: list, workdir=None) -> list:
@@ -1648,11 +1771,13 @@ def correspondence(ctx) -> CorrResult:
     res = CorrResult()
     dist = {"models": len(specs), "completed": 0, "not_converged_or_error": 0, "shapes": {}, "blocks_per_variant": {},
             "errors": {}}
-    nl_all, lin_all = [], []
+    nl_all, lin_all, plan_all = [], [], []
     for spec, r in zip(specs, results):
         if r["harness_error"]:
             res.disagreements.append(Disagreement("harness", {"source": source_text(spec)}, None, r["harness_error"]))
             continue
+        if r.get("plan_case"):
+            plan_all.append((spec, r["plan_case"]))
         if r["error"]:
             dist["not_converged_or_error"] += 1
             k = r["error"].split(":")[1].strip() if ":" in r["error"] else r["error"]
@@ -1667,7 +1792,11 @@ def correspondence(ctx) -> CorrResult:
             nl_all.append((spec, c))
         for c in r["lin"]:
             lin_all.append((spec, c))
-    res.evaluations = len(nl_all) + len(lin_all)
+    res.evaluations = len(nl_all) + len(lin_all) + len(plan_all)
+    dist["plan_histories"] = {"cases": len(plan_all), "calls": sum(len(c["hist"]) for _, c in plan_all),
+                              "calls_that_raised": sum(len(c["errors"]) for _, c in plan_all),
+                              "growth": sum(1 for _, c in plan_all if not c["flat"]),
+                              "distinct": len({repr(c["hist"]) + repr(c["endog"]) + repr(c["flat"]) for _, c in plan_all})}
     res.distinct_nontrivial = len({repr(c["xtrings"]) + repr(c["levels"]) + repr(c["orcs"]) for _, c in nl_all
                                    if c["orcs"]}) + len({repr(c["sys"]) for _, c in lin_all})
     res.distribution = dist
@@ -1677,7 +1806,11 @@ def correspondence(ctx) -> CorrResult:
                 "optional steady plan; 1-2 variants; split_into_blocks None/True/False; solver default / neqs_levenberg / scipy_root "
                 "with and without solver_settings; called as steady or solve_steady) run through the public method; one "
                 "case per parameter variant; non-trivial = at least one block was handed to the solver (nonlinear) or a linear "
-                "system was solved; distinct = distinct (equations, starting values, recorded solver output)")
+                "system was solved; distinct = distinct (equations, starting values, recorded solver output).  Plan histories: per "
+                "generated model one random history of 1-10 public SteadyPlan calls (the twelve methods; names singly, as lists, "
+                "Ellipsis; some invalid) played on a fresh SteadyPlan and on the register machine of model/SteadyPlan.v; the four "
+                "registers and the raised/not-raised flag after EVERY call, the qid tuples of _resolve_steady_wrt and the default of "
+                "_resolve_split_into_blocks for the final plan are compared exactly")
     res.samples = [{"source": source_text(s), "plan": s["plan"], "flat": s["flat"], "linear": s["linear"],
                     "expect": c["expect"]} for s, c in nl_all[:2]] + \
                   [{"source": source_text(s), "flat": s["flat"], "expect": c["expect"]} for s, c in lin_all[:1]]
@@ -1694,8 +1827,27 @@ def correspondence(ctx) -> CorrResult:
         b = lin_all[k * len(lin_all) // nsh:(k + 1) * len(lin_all) // nsh]
         shards.append((a, b))
     texts = [shard_text([c for _, c in a], [c for _, c in b]) for a, b in shards]
+    per_plan = 150
+    plan_shards = [plan_all[k:k + per_plan] for k in range(0, len(plan_all), per_plan)]
+    texts += [plan_shard_text([c for _, c in a]) for a in plan_shards]
     results = core.run_cases(ctx, texts)
     res.shards = len(texts)
+    for a, (ok, outp) in zip(plan_shards, results[len(shards):]):
+        if not ok:
+            res.disagreements.append(Disagreement("plan-history cases shard does not evaluate", None, outp[-800:], None))
+            continue
+        bodies = core.parse_eval_lists(outp)
+        if len(bodies) != 1:
+            res.disagreements.append(Disagreement("plan-history cases shard: unparsable output", None, outp[-800:], None))
+            continue
+        for i in core.parse_nat_list(bodies[0]):
+            spec, c = a[i]
+            res.disagreements.append(Disagreement(
+                "plan-history", {"source": source_text(spec), "flat": spec["flat"], "history": spec["plan_hist"]},
+                "the register machine of model/SteadyPlan.v run on the same calls gives other registers / ok flags / "
+                "_resolve_steady_wrt qids / split default",
+                {"trace": c["trace"], "wrt": c["wrt"], "split": c["split"]}))
+    results = results[:len(shards)]
     comp = {1: "wrt_qids", 2: "fixed_level_qids", 3: "fixed_change_qids", 4: "block observations (index masks / initial guess / "
             "residual vector at the final guess)", 5: "stored levels after write-back", 6: "stored changes after write-back"}
     for k, (ok, outp) in enumerate(results):
